@@ -66,7 +66,11 @@ pub fn cmd_tails(seed: u64, depth3: bool, aliases: bool) -> Vec<Tail> {
         }
         if i % 3 == 0 {
             // three alternatives: two commands and a default
-            t.push(Tail::Cmds { cmds: vec![c, other], wrap: CmdWrap::PureAlt });
+            t.push(Tail::Cmds { cmds: vec![c.clone(), other.clone()], wrap: CmdWrap::PureAlt });
+        }
+        if i % 3 == 1 {
+            // the default first, the commands after it
+            t.push(Tail::Cmds { cmds: vec![c, other], wrap: CmdWrap::PureFirst });
         }
     }
     t
